@@ -170,3 +170,14 @@ CHECKS["C12"] = {
              "(balanced literals/classes in constants are checked by the scanner; semantics of llama.cpp's parser beyond that is assumed). CONTRACT token reconstruction is covered only in so far as its result passes "
              "through the same compile_schema."),
 }
+
+CHECKS["C13"] = {
+    "technique": "static analysis: the constant GBNF fragments are extracted and translated to automata; inclusion in the language of the reader token that yields the value kind the constraint accepts (tokenizer model extracted from the source), with shortest witnesses; def-use rule for CONST/ENUM spelling; order rule on compile_chain",
+    "text": ("Decides: the BOOLEAN and NUMBER fragments derive only texts that are one BOOLEAN / NUMBER token and that no earlier token regex (VERSION ...) matches first; the DATE and ISO8601 fragments derive only "
+             "texts that are one quoted STRING token whose content lies in the constraint's own pattern (extracted from DateConstraint.evaluate / Iso8601Constraint.compile); the text placed in the grammar for CONST "
+             "and ENUM values is _escape_literal(emit_value(value)), i.e. spelled by the emitter's own quoting decision (whose agreement with the reader is C04 R04.3); compile_chain selects members in the documented "
+             "priority; the separator between '::' and the value must derive only spaces; the reader model is bound to tokenize(); on the validator side REQ-missing is `value is None` and bool precedes number. Repaired on "
+             "the pinned tree: bare DATE/ISO8601, CONST/ENUM spelled with str(). Recorded: impossible calendar dates, ws (tab / newline) after '::'."),
+    "note": ("CONST/ENUM for concrete schema values and the validator side of REGEX are not decided (runtime data). Only fragments that are source constants are translated; a fragment assembled from non-constant "
+             "parts is an analysis error, not a pass."),
+}
